@@ -175,7 +175,7 @@ struct Gen {
 
 	void randomsFor(Op& op) {
 		if (!has(CAP_UTILITY) || !sh.usesUtility) return;
-		const int n = (is("C10") || is("C11") || is("C12")) && rng.chance(0.4) ? rng.range(2, 3) : 1;
+		const int n = (is("C10") || is("C11")) && rng.chance(0.4) ? rng.range(2, 3) : 1;   // the model attributes one number to every draw of an operation
 		for (int k = 0; k < n; ++k) {
 			float v;
 			switch (rng.weighted({50, 10, 14, 10, 8, 8})) {
@@ -239,6 +239,7 @@ RunPlan generate(uint64_t seed, const std::string& lens, const std::string& shap
 	g.cardDensity = r.pick(std::vector<double>{0.15, 0.4, 0.6, 0.75});
 	g.exoticUtility = is("C12") && r.chance(0.5);
 	// substitution limits differ between build twins: guards may veto but not substitute
+	p.wp.maxTasks = options.has("maxTasks") ? int(options.at("maxTasks").asInt()) : -1;
 	bool guardReq = !options.at("noGuardRequests").asBool(false);
 	p.wp.guardRequests = guardReq; g.guardRequests = guardReq;
 
